@@ -397,6 +397,11 @@ def gen_payload(rng, flags, pcode, hi_bits=0):
     add("TextureEntry", "u32", g_te(rng))
     add("TextureAnim", "u32", g_ta(rng) if on("TEXTURE_ANIM") else None)
     add("PSBlockNew", "rest", g_psblock_new(rng) if on("PARTICLES_NEW") else None)
+    return _assemble(raw)
+
+
+def _assemble(raw):
+    """[(field, framing, content|None)] -> (payload, [(field, framing, content|None, start offset)])"""
     out = b""
     parts = []
     for name, fr, c in raw:
@@ -410,6 +415,23 @@ def gen_payload(rng, flags, pcode, hi_bits=0):
         else:
             out += c
     return out, parts
+
+
+# every length-prefixed / counted / terminated / greedy section, with the flag that announces it (None: unconditional)
+EMPTIABLE = {"ScratchPad": "SCRATCHPAD", "Text": "TEXT", "MediaURL": "MEDIA_URL", "ExtraParams": None,
+             "NameValue": "NAME_VALUES", "TextureEntry": None, "TextureAnim": "TEXTURE_ANIM", "PSBlockNew": "PARTICLES_NEW"}
+
+
+def gen_empty_sections(rng, base_flags, pcode, which):
+    """A payload whose sections `which` are announced (flag set) but EMPTY: zero-length block, zero count,
+    bare terminator, nothing left.  Whether that is in the domain is the template's decision (observed)."""
+    flags = base_flags
+    for n in which:
+        if EMPTIABLE[n]:
+            flags |= 1 << FLAG[EMPTIABLE[n]]
+    p, parts = gen_payload(rng, flags, pcode)
+    raw = [(n, fr, (b"\x00" if n == "ExtraParams" else b"") if n in which else c) for n, fr, c, _ in parts]
+    return _assemble(raw)[0], flags
 
 
 MUTATIONS = ["trunc", "append", "flagflip", "byte", "content", "len", "dropsec", "dupsec", "nul", "hiflag"]
@@ -579,7 +601,7 @@ TRACE_CFG = ("SPECIFICATION TraceSpec\nCONSTANTS\n FlagWords = {0}\n HighBits = 
              " Product = FALSE\nPOSTCONDITION TraceAccepted\nCHECK_DEADLOCK FALSE\n")
 
 
-def _traces(chk: Check, per_flag: int, n_mut: int):
+def _traces(chk: Check, per_flag: int, n_mut: int, n_empty: int):
     I = impl()
     rng = chk.rng
     names = FIELD_NAMES
@@ -610,6 +632,22 @@ def _traces(chk: Check, per_flag: int, n_mut: int):
         indom = ev["tmpl"]["res"] == "ok" and ev["rt"]["res"] == "ok" and ev["rt"]["b"] == ev["p"]
         key = "%s: %s" % (kind, "still in the template's domain" if indom else
                           "fast=%s template=%s" % (ev["fast"]["res"], ev["tmpl"]["res"]))
+        stats[key] = stats.get(key, 0) + 1
+    # announced-but-empty sections: each alone (on a bare and on a full flag word) and random combinations
+    combos = []
+    for n in EMPTIABLE:
+        combos += [(0, [n]), (2047, [n]), (rng.getrandbits(11), [n])]
+    for _ in range(n_empty):
+        combos.append((rng.choice([0, 2047, rng.getrandbits(11)]), rng.sample(sorted(EMPTIABLE), rng.randrange(2, len(EMPTIABLE) + 1))))
+    for base, which in combos:
+        pcode = rng.choice(known)
+        q, flags = gen_empty_sections(rng, base, pcode, which)
+        ev = observe(I, names, q, False)
+        events.append(ev)
+        meta.append({"flags": flags, "pcode": pcode, "mutation": "empty-section", "empty": which})
+        indom = ev["tmpl"]["res"] == "ok" and ev["rt"]["res"] == "ok" and ev["rt"]["b"] == ev["p"]
+        key = "empty-section: %s" % ("still in the template's domain" if indom else
+                                     "fast=%s template=%s" % (ev["fast"]["res"], ev["tmpl"]["res"]))
         stats[key] = stats.get(key, 0) + 1
     traces = [[e] for e in events]
     # exception texts are for the replay file, not for TLC
@@ -659,8 +697,11 @@ def run(chk: Check):
                        "contents) and byte-level mutations re-parsed by TLC. non-trivial = distinct (flag word, kind, variant/length) "
                        "payloads plus mutated payloads that stay in the template's domain.")
     chk.assumptions += [
-        "well-formed = accepted by the reference parser with nothing left over AND canonical: a present NameValue section is not empty "
-        "(the template writes nothing at all for 'no value', so such a payload is not in its image) and no extra-param type occurs twice",
+        "generated payloads are well-formed = accepted by the reference parser with nothing left over, and canonical for TODAY's template: a "
+        "present NameValue section is not empty and no extra-param type occurs twice (generator rules, guarded by an Assert in the trace spec)",
+        "mutated payloads and payloads with announced-but-empty sections (zero-length block, zero count, bare terminator) are in the domain iff "
+        "the declarative template is observed to decode them and to re-encode them to the same bytes; whether an empty composite section "
+        "decodes to 'no value' is bound to the template's observed choice and the fast reader must make the same one",
         "generator domain rules: floats are NaN/inf-free; texture-entry rotation raw -32768 excluded (C10/D5); strings are valid UTF-8",
         "a mutated payload is judged only if the declarative template decodes it and re-encodes it to the same bytes (it is then in the "
         "template's domain); other mutated payloads are tallied in notes only",
@@ -689,7 +730,7 @@ def run(chk: Check):
                                   "kinds x junk flag bits x variants"), "kinds x junk flag bits x variants")
         if not quick:
             _replay_rows(chk, _export(chk, ([2047, 1365, 682], [0], [47], [1, 3], True), "variant product"), "variant product")
-        _traces(chk, 1 if quick else 4, 1500 if quick else 12000)
+        _traces(chk, 1 if quick else 4, 1500 if quick else 12000, 120 if quick else 1200)
         for lab, res in fut.result():
             chk.require_model_ok(res, "CompressedObj " + lab)
     extra = {k: n - 3 for k, n in _SEEN.items() if n > 3}
